@@ -231,22 +231,50 @@ def install(world):
         def truncate(self, a, n):
             return world.step("os.truncate", role_of(a), lambda: _os.truncate(a, n))
 
-    S.open = open_p
-    S.NamedTemporaryFile = ntf_p
-    S.shutil = ShutilP()
-    S.os = OsP()
+    class TempfileP:
+        def __getattr__(self, n):
+            return getattr(_tempfile, n)
+
+        NamedTemporaryFile = staticmethod(ntf_p)
+
+    osp, shp, tfp = OsP(), ShutilP(), TempfileP()
+    # Rebind, in every loaded tinyflux module, each global that is bound to a file-system entry point - whether the module imported
+    # the package (`import os`), an alias of it, or single functions (`from os import replace`) - so that moving the I/O code around
+    # or changing its import style does not blind the layer.  (Anything else that slips through is reported by the audit hook.)
+    by_identity = {
+        id(_os): osp, id(_shutil): shp, id(_tempfile): tfp,
+        id(builtins.open): open_p, id(_tempfile.NamedTemporaryFile): ntf_p,
+        id(_os.fsync): osp.fsync, id(_os.replace): osp.replace, id(_os.rename): osp.rename, id(_os.remove): osp.remove, id(_os.unlink): osp.unlink,
+        id(_os.truncate): osp.truncate,
+        id(_shutil.copy): shp.copy, id(_shutil.copyfile): shp.copyfile, id(_shutil.copy2): shp.copy2, id(_shutil.move): shp.move,
+    }
+    _SAVED.clear()
+    for name, mod in list(sys.modules.items()):
+        if mod is None or not (name == "tinyflux" or name.startswith("tinyflux.")):
+            continue
+        for gname, val in list(vars(mod).items()):
+            proxy = by_identity.get(id(val))
+            if proxy is not None:
+                _SAVED.append((mod, gname, val))
+                setattr(mod, gname, proxy)
+        if "open" not in vars(mod):  # modules calling the builtin
+            _SAVED.append((mod, "open", _MISSING))
+            mod.open = open_p
     _ACTIVE["world"] = world
 
 
-def uninstall():
-    import tinyflux.storages as S
+_SAVED = []
+_MISSING = object()
 
+
+def uninstall():
     _ACTIVE["world"] = None
-    if "open" in S.__dict__:
-        del S.open
-    S.NamedTemporaryFile = _tempfile.NamedTemporaryFile
-    S.shutil = _shutil
-    S.os = _os
+    for mod, gname, val in reversed(_SAVED):
+        if val is _MISSING:
+            vars(mod).pop(gname, None)
+        else:
+            setattr(mod, gname, val)
+    _SAVED.clear()
 
 
 class installed:
